@@ -407,6 +407,10 @@ impl Suite for RequestSuite {
                 let mut count = 0u64;
                 let r = for_all_cuts(stream.len(), *max_k as usize, |cuts| {
                     count += 1;
+                    if count % 4096 == 0 {
+                        // a long enumeration, not a spin: each decode call still has the full budget
+                        engine::watchdog::heartbeat();
+                    }
                     run(cuts)
                 });
                 engine::bump("segmentations", count + 1);
